@@ -76,6 +76,45 @@ def xgcdPrim (a b : Nat) : Except PanicKind (Nat × Int × Int) :=
         let (g, cb, ca) := xgcdLoop (a + 1) b a 1 0 0 1
         .ok (g * 2 ^ shift, ca, cb)
 
+/-- the two-width `unchecked_gcd_ext` (`impl_unchecked_gcd_ops_prim!(u128 | i128 => u64 | i64)`): plain
+    Euclid while the remainder needs more than `H` bits, then one more division and the half-width
+    loop on `(r, new_r)`; the cofactors are recombined as `cx·s + cy·new_s`, `cx·t + cy·new_t` -/
+def xgcdLoopWide (H : Nat) : Nat → Nat → Nat → Int → Int → Int → Int → Nat × Int × Int
+  | 0, _, r, _, s, _, t => (r, s, t)
+  | fuel + 1, lastR, r, lastS, s, lastT, t =>
+    let quo := lastR / r
+    let newR := lastR - quo * r
+    if r / 2 ^ H > 0 then
+      if newR = 0 then (r, s, t)
+      else xgcdLoopWide H fuel r newR s (lastS - quo * s) t (lastT - quo * t)
+    else
+      if newR = 0 then (r, s, t)
+      else
+        let newS := lastS - quo * s
+        let newT := lastT - quo * t
+        let (g, cx, cy) := xgcdLoop (newR + 1) r newR 1 0 0 1
+        (g, cx * s + cy * newS, cx * t + cy * newT)
+
+/-- `impl ExtendedGcd for u128` (the double word of a 64-bit build; `H` = bits of the half width) -/
+def xgcdPrimWide (H : Nat) (a b : Nat) : Except PanicKind (Nat × Int × Int) :=
+  if a = 0 ∧ b = 0 then .error .gcdZeroZero
+  else if a = 0 then .ok (b, 0, 1)
+  else if b = 0 then .ok (a, 1, 0)
+  else
+    let shift := min (trailingZeros a) (trailingZeros b)
+    let a := a / 2 ^ shift
+    let b := b / 2 ^ shift
+    if a ≥ b then
+      if b = 1 then .ok (2 ^ shift, 0, 1)
+      else
+        let (g, ca, cb) := xgcdLoopWide H (b + 1) a b 1 0 0 1
+        .ok (g * 2 ^ shift, ca, cb)
+    else
+      if a = 1 then .ok (2 ^ shift, 1, 0)
+      else
+        let (g, cb, ca) := xgcdLoopWide H (a + 1) b a 1 0 0 1
+        .ok (g * 2 ^ shift, ca, cb)
+
 -- ---------------------------------------------------------------- gcd_ops.rs: gcd
 
 /-- frontier: `gcd::gcd_in_place` (Lehmer on two multi-word operands) is specified by `Nat.gcd` -/
@@ -106,12 +145,13 @@ def gcdRepr (W : Nat) (a b : Nat) : Except PanicKind Nat :=
 -- ---------------------------------------------------------------- gcd/mod.rs: gcd_ext_word / gcd_ext_dword
 
 /-- result of `gcd::gcd_ext_word/_dword`: `(g, a, |b|, b negative?)` with `lhs*a + rhs*b = g` -/
-def gcdExtSmall (lhs rhs : Nat) : Except PanicKind (Nat × Int × Nat × Bool) :=
+def gcdExtSmall (W : Nat) (lhs rhs : Nat) : Except PanicKind (Nat × Int × Nat × Bool) :=
   let q := lhs / rhs                              -- div_by_(d)word_in_place: lhs := quotient
   let rem := lhs % rhs
   if rem = 0 then .ok (rhs, 0, 1, false)
   else
-    match xgcdPrim rhs rem with
+    -- `gcd_ext_word`: the `Word` implementation; `gcd_ext_dword`: the two-width `DoubleWord` one
+    match (if rhs < 2 ^ W then xgcdPrim rhs rem else xgcdPrimWide W rhs rem) with
     | .error k => .error k
     | .ok (r, s, t) =>
       let sMag := s.natAbs
@@ -121,10 +161,10 @@ def gcdExtSmall (lhs rhs : Nat) : Except PanicKind (Nat × Int × Nat × Bool) :
       .ok (r, t, q * tMag + sMag, bNeg)
 
 /-- `gcd_ext_large_dword(buffer, rhs)`: returns `(g, s, t)` with `buffer*s + rhs*t = g` -/
-def gcdExtLargeDword (buffer rhs : Nat) : Except PanicKind (Nat × Int × Int) :=
+def gcdExtLargeDword (W : Nat) (buffer rhs : Nat) : Except PanicKind (Nat × Int × Int) :=
   if rhs = 0 then .ok (buffer, 1, 0)
   else
-    match gcdExtSmall buffer rhs with
+    match gcdExtSmall W buffer rhs with
     | .error k => .error k
     | .ok (g, a, bMag, bNeg) => .ok (g, a, if bNeg then -(bMag : Int) else (bMag : Int))
 
@@ -173,10 +213,10 @@ def gcdExtRepr (W : Nat) (kernel : Nat → Nat → Nat × Nat × Bool) (a b : Na
     Except PanicKind (Nat × Int × Int) :=
   let small := fun (x : Nat) => decide (x < 2 ^ (2 * W))
   match small a, small b with
-  | true, true => xgcdPrim a b
-  | false, true => gcdExtLargeDword a b
+  | true, true => xgcdPrimWide W a b              -- `DoubleWord::gcd_ext`
+  | false, true => gcdExtLargeDword W a b
   | true, false =>
-    match gcdExtLargeDword b a with
+    match gcdExtLargeDword W b a with
     | .error k => .error k
     | .ok (g, s, t) => .ok (g, t, s)
   | false, false => .ok (gcdExtLarge kernel a b)
